@@ -804,19 +804,29 @@ pub fn eval(c: &Case, obs: &mut Obs) -> Result<(), String> {
 
 fn strategy(_: &Ctx) -> BoxedStrategy<Case> {
     let word = prop_oneof![
-        6 => any::<u64>(),
-        1 => Just(0u64),
-        1 => Just(u64::MAX),
+        12 => any::<u64>(),
+        2 => Just(0u64),
+        2 => Just(u64::MAX),
         1 => Just(0x8000_0000_8000_8080u64),
-        1 => (0u64..8),
+        2 => (0u64..8),
+        // numbers that mean something in a neighbouring specification or on a PC:
+        // reserved ELF indices, header sizes, the EGA/VGA windows, text geometries,
+        // depths, table lengths, the 16- and 32-bit marks
+        3 => proptest::sample::select(vec![0xffffu64, 0xfff1, 0xff00, 40, 64, 0xb8000, 0xa0000, 80, 25, 43, 50, 16, 24, 32, 36, 20, 0x7fff_ffff, 0x1_0000, 0x1_0000_0000]),
+        // one byte value in all eight bytes (zeroed, erased, poisoned memory)
+        2 => any::<u8>().prop_map(|b| u64::from_le_bytes([b; 8])),
+    ];
+    let content = prop_oneof![
+        3 => proptest::collection::vec(any::<u8>(), 0..=80),
+        2 => (0u8..8, any::<u64>(), 0usize..48).prop_map(|(v, k, n)| mb2_model::realistic::blob(v, k, n)),
     ];
     (
         0u8..N_CTORS,
         proptest::collection::vec(word, 64),
-        proptest::collection::vec(any::<u8>(), 0..=80),
+        content,
         "[^\\x00]{0,40}",
     )
-        .prop_map(|(ctor, words, content, mut text)| {
+        .prop_map(|(ctor, mut words, mut content, mut text)| {
             // some texts carry an interior and/or a trailing NUL
             let sel = words[63];
             if sel % 5 == 0 {
@@ -825,6 +835,21 @@ fn strategy(_: &Ctx) -> BoxedStrategy<Case> {
             }
             if sel % 7 == 0 {
                 text.push('\0');
+            }
+            // ELF sections: every second call gets coherent arguments - a section
+            // table as a linker writes it (small link indices), its entry count and
+            // entry size, and a string-table index that is in range or one of the
+            // reserved ELF indices
+            if ctor == 10 && sel % 2 == 0 {
+                let es = if sel & 2 == 0 { 40usize } else { 64 };
+                let k = 1 + (sel >> 2) as usize % 4;
+                content.clear();
+                for j in 0..k {
+                    content.extend(mb2_model::realistic::elf_section_header(es, j as u32, [0u32, 1, 3, 2][j % 4], 6, 0x10_0000 * j as u64, 0x100, ((sel >> (8 + 2 * j)) as usize % k) as u32, sel, j));
+                }
+                words[0] = k as u64;
+                words[1] = es as u64;
+                words[2] = [0u64, (k - 1) as u64, 0xffff, 0xfff1, 0xff00, k as u64][(sel >> 5) as usize % 6];
             }
             Case { ctor, words, content: Hex(content), text }
         })
